@@ -405,6 +405,10 @@ hwloc_calc_parse_range(const char *_string,
       if (verbose >= 0)
 	fprintf(stderr, "missing width at `%s' in range at `%s'\n", end2, string);
       return -1;
+    } else if (amount <= 0) {
+      if (verbose >= 0)
+	fprintf(stderr, "invalid width at `%s' in range at `%s'\n", end+1, string);
+      return -1;
     }
 
   } else if (*end) {
